@@ -348,6 +348,10 @@ func rulePublishImmut(r *Run) {
 	// classify an argument / target: fresh-local, own-parameter, or shared
 	classify := func(fn *ssa.Function, v ssa.Value) (string, string) {
 		shared := ""
+		// anything read out of the engine's cache is published, whoever holds the engine
+		if throughCache(p, v) {
+			return "shared", "taken from the engine's template cache"
+		}
 		for rt := range deepRoots(p, v) {
 			switch x := rt.(type) {
 			case *ssa.Alloc, *ssa.MakeMap, *ssa.MakeSlice, *ssa.Const:
@@ -379,6 +383,14 @@ func rulePublishImmut(r *Run) {
 				// map update / element store: look at the collection's owner
 				chain, _ := addrChain(w.Target)
 				if len(chain) == 0 {
+					// `*t = *other`: the whole template object is overwritten in place
+					if st, ok := w.In.(*ssa.Store); ok && isTpl(st.Addr.Type()) {
+						n++
+						kind, what := classify(fn, w.Target)
+						tn := typeName(st.Addr.Type())
+						r.Check("publish-immut", fmt.Sprintf("%s:*%s", shortName(fn), tn), w.In.Pos(), kind != "shared",
+							fmt.Sprintf("%s overwrites a whole %s it did not create (%s): every holder of that pointer (children's Parent, callers of GetTemplate, renders in progress) sees the change — published templates must be immutable", shortName(fn), tn, what))
+					}
 					continue
 				}
 				w.Field = chain[len(chain)-1]
@@ -617,4 +629,54 @@ func sharesPointers(p *Program, t types.Type) bool {
 		return true
 	}
 	return walk(t)
+}
+
+// throughCache: the value is obtained by reading TemplateEngine.cache (map lookup / range).
+func throughCache(p *Program, v ssa.Value) bool {
+	seen := map[ssa.Value]bool{}
+	var walk func(v ssa.Value) bool
+	walk = func(v ssa.Value) bool {
+		if v == nil || seen[v] {
+			return false
+		}
+		seen[v] = true
+		switch x := v.(type) {
+		case *ssa.Lookup:
+			if ld, ok := x.X.(*ssa.UnOp); ok {
+				if fv, _ := fieldOfAddr(ld.X); fieldIs(p, fv, pkgDoc, "TemplateEngine", "cache") {
+					return true
+				}
+			}
+			return walk(x.X)
+		case *ssa.Range:
+			if ld, ok := x.X.(*ssa.UnOp); ok {
+				if fv, _ := fieldOfAddr(ld.X); fieldIs(p, fv, pkgDoc, "TemplateEngine", "cache") {
+					return true
+				}
+			}
+			return walk(x.X)
+		case *ssa.Extract:
+			return walk(x.Tuple)
+		case *ssa.Next:
+			return walk(x.Iter)
+		case *ssa.FieldAddr:
+			return walk(x.X)
+		case *ssa.IndexAddr:
+			return walk(x.X)
+		case *ssa.UnOp:
+			return walk(x.X)
+		case *ssa.Phi:
+			for _, e := range x.Edges {
+				if walk(e) {
+					return true
+				}
+			}
+		case *ssa.TypeAssert:
+			return walk(x.X)
+		case *ssa.ChangeType:
+			return walk(x.X)
+		}
+		return false
+	}
+	return walk(v)
 }
